@@ -39,7 +39,7 @@ MAGIC_PUB_ED25519 = SCH.ctor_id('pub.ed25519').to_bytes(4, 'little')
 _IGNORE = {s.strip() for s in os.environ.get('VERIF_IGNORE_SIG', '').split(',') if s.strip()}
 
 RULE = ('case = (validators: list of (32-byte Ed25519 seed, weight); block id; signature list: entries of kind valid-by-'
-        'member-i / bit-flipped / valid-for-another-block (root or file hash changed, or swapped) / valid-by-non-member / '
+        'member-i / bit-flipped / genuine-over-a-prefixed-payload-with-the-prefix-appended / valid-for-another-block (root or file hash changed, or swapped) / valid-by-non-member / '
         'member-id-with-foreign-signature, in generated order, members may repeat). 0..12 validators; weights from '
         '{0,1,2,3, random up to 2^62} or engineered so that 3*signed - 2*total is in {-3..3} (exact 2/3 and both sides). '
         'enum-small: n=0..5 validators x 3 weight patterns x every subset of signers x 11 list shapes. '
@@ -86,7 +86,7 @@ def analyse(case):
         k = e['k']
         if k in ('valid', 'valid-alt'):
             signers.append(e['i'])
-        elif k in ('bitflip', 'impersonate'):
+        elif k in ('bitflip', 'impersonate', 'prefixed'):
             reasons.add('invalid-signature')
         elif k == 'otherblk':
             reasons.add('signature-for-other-block')
@@ -151,6 +151,10 @@ def check(case):
             if any(pk == q for _, q in keys):
                 raise ValueError('case outside the domain: non-member key is a member')
             s = sk.sign(payload).signature
+        elif k == 'prefixed':                                # a member's genuine signature over (extra || payload), handed over as
+            sk, pk = keys[e['i']]                            # sig64 || extra: not a signature over this block's identifier
+            extra_b = hashlib.sha256(b'c12/extra/%d' % e['n']).digest()[:1 + e['n'] % 32]
+            s = sk.sign(extra_b + payload).signature + extra_b
         elif k == 'impersonate':                             # member's id, signature made with a foreign key
             sk, _ = _key(e['seed'])
             _, pk = keys[e['i']]
@@ -229,6 +233,8 @@ def enum_small(tier):
                     shapes.append(('otherblk', [{'k': 'otherblk', 'i': m, 'how': ('root', 'file', 'swap')[mask % 3],
                                                  'bit': (mask * 11) % 256}] + base[1:]))
                     shapes.append(('impersonate', base[1:] + [{'k': 'impersonate', 'i': m, 'seed': _seed(f'x{n}/{mask}')}]))
+                    shapes.append(('prefixed', base[1:] + [{'k': 'prefixed', 'i': m, 'n': mask}]))
+                    shapes.append(('prefixed-all', [{'k': 'prefixed', 'i': i, 'n': mask + i} for i in members]))
                 shapes.append(('nonmember', base + [{'k': 'nonmember', 'seed': _seed(f'nm{n}/{mask}')}]))
                 for sname, sl in shapes:
                     if sname == 'reversed' and len(base) < 2:
@@ -271,12 +277,12 @@ def _case(draw):
     sigs = [{'k': 'valid', 'i': i} for i in signers]
     # adversarial elements
     adv = draw(st.sampled_from(['none', 'none', 'none', 'dup', 'dup-many', 'bitflip', 'otherblk', 'nonmember',
-                                'impersonate', 'mix']))
+                                'impersonate', 'prefixed', 'mix']))
     if mode == 'repeat-one' and adv == 'none':
         adv = 'dup-many'
     extra = []
     kinds = {'dup': ['dup'], 'dup-many': ['dup'] * draw(st.integers(2, 8)), 'mix': draw(st.lists(
-        st.sampled_from(['dup', 'bitflip', 'otherblk', 'nonmember', 'impersonate']), min_size=2, max_size=4))}.get(adv, [adv])
+        st.sampled_from(['dup', 'bitflip', 'otherblk', 'nonmember', 'impersonate', 'prefixed']), min_size=2, max_size=4))}.get(adv, [adv])
     for j, kd in enumerate(kinds):
         if kd == 'none':
             continue
@@ -299,6 +305,8 @@ def _case(draw):
                           'how': draw(st.sampled_from(['root', 'file', 'swap'])), 'bit': draw(st.integers(0, 255))})
         elif kd == 'impersonate':
             extra.append({'k': 'impersonate', 'i': draw(st.integers(0, n - 1)), 'seed': _seed(f'{tag}/im{j}')})
+        elif kd == 'prefixed':
+            extra.append({'k': 'prefixed', 'i': draw(st.integers(0, n - 1)), 'n': draw(st.integers(0, 255))})
     sigs = list(draw(st.permutations(sigs + extra))) if extra else sigs
     h = st.one_of(st.binary(min_size=32, max_size=32), st.sampled_from([b'\x00' * 32, b'\xff' * 32]))
     blk = {'wc': draw(st.sampled_from([-1, 0, 1, -2 ** 31, 2 ** 31 - 1])),
